@@ -973,8 +973,18 @@ def numeric_round_trips(rep, fnd, pid, tier):
             kf = names.index(name) * 3 + dwtlib.MODES.index(mode)
             fw = pw.DWT1DForward(J=J, wave=dwtlib.wave_form(name, kf)[0], mode=mode)
             iv = pw.DWT1DInverse(wave=dwtlib.wave_form(name, kf + 2, synthesis=True)[0], mode=mode)
+            if kf % 2 == 0:
+                # the modules have a past: an earlier call with float32 data (rejected today - the filters are float64 - and whatever
+                # happens it must leave the modules as they were) and an earlier call with another size
+                for past in (lambda: fw(torch.zeros(1, 1, N, dtype=torch.float32)), lambda: fw(torch.zeros(1, 3, N + 5)),
+                             lambda: iv(tuple(fw(torch.zeros(1, 1, N + 3)))),
+                             lambda: iv((torch.zeros(1, 1, 8, dtype=torch.float32), [torch.zeros(1, 1, 8, dtype=torch.float32)]))):
+                    try:
+                        past()
+                    except Exception:   # noqa
+                        pass
             for x in adversarial_inputs(rng, (2, 2, N)):
-                cfg = dict(wavelet=name, mode=mode, N=N, J=J)
+                cfg = dict(wavelet=name, mode=mode, N=N, J=J, modules_used_before=bool(kf % 2 == 0))
                 try:
                     yl, yh = fw(torch.tensor(x))
                 except Exception:   # noqa
